@@ -27,3 +27,17 @@ func TestF10_ErrorHandlerSelection(t *testing.T) {
 		t.Fatalf("error of /api-v2/x was answered by %v, want always B", seen)
 	}
 }
+
+// F39: routing ignores letter case by default, the choice of the mounted error handler did not:
+// a request that ran a sub-app's route under /API had its error delivered to the root handler.
+func TestF39_MountedErrorHandlerFollowsCaseInsensitiveRouting(t *testing.T) {
+	sub := fiber.New(fiber.Config{ErrorHandler: func(c fiber.Ctx, err error) error { return c.Status(500).SendString("sub") }})
+	sub.Get("/boom", func(c fiber.Ctx) error { return errors.New("boom") })
+	root := fiber.New(fiber.Config{ErrorHandler: func(c fiber.Ctx, err error) error { return c.Status(500).SendString("root") }})
+	root.Use("/api", sub)
+	for _, p := range []string{"/api/boom", "/API/boom", "/Api/BOOM"} {
+		if got := string(do(root, "GET", p).Response.Body()); got != "sub" {
+			t.Errorf("GET %s: error handled by %q, want the sub-app's handler", p, got)
+		}
+	}
+}
